@@ -331,6 +331,8 @@ func c15exec(j run.Job, a *run.Acc) {
 				a.Sample("random-history", strings.Join(p.hist, "; "))
 			}
 		}
+	case "scale":
+		c15scale(j, a)
 	case "exhaustive":
 		// all operation sequences of length depth whose first operation has index in [Lo,Hi)
 		depth := j.Param("depth", 3)
@@ -373,6 +375,209 @@ func c15exec(j run.Job, a *run.Acc) {
 			}
 		}
 		rec(newC15Pool(), 0, 0)
+	}
+}
+
+// c15scale: histories whose values are LARGE (sets of hundreds to thousands of members, maps with hundreds of keys,
+// counters beyond 8, 16 and 32 bits, members beyond 32 bits) or LONG (hundreds of operations on one lineage): sizes at
+// which an implementation may switch representation, algorithm or growth strategy. Same oracle as the other families;
+// the pool is re-read at checkpoints and at the end (every value ever produced, not only the last one).
+func c15scale(j run.Job, a *run.Acc) {
+	r := rand.New(rand.NewSource(j.Seed))
+	for it := 0; it < j.N; it++ {
+		mode := it % 4
+		caseSeed := r.Int63()
+		if !a.Begin() {
+			continue
+		}
+		cr := rand.New(rand.NewSource(caseSeed))
+		p := newC15Pool()
+		check := func(at string) bool {
+			a.Count("values_reread", int64(len(p.sets)+len(p.maps)))
+			if kind, msg := p.verify(); kind != "" {
+				h := p.hist
+				if len(h) > 40 {
+					h = append([]string{fmt.Sprintf("... %d earlier operations (replay with the case seed)", len(h)-40)}, h[len(h)-40:]...)
+				}
+				a.Violate(kind, kind, map[string]any{"family": "scale", "mode": mode, "case_seed": caseSeed, "checkpoint": at, "last_operations": h, "observed": msg})
+				return false
+			}
+			return true
+		}
+		big := func(dom int) int {
+			switch cr.Intn(30) {
+			case 0:
+				return 1<<31 + cr.Intn(5) - 2
+			case 1:
+				return 1<<32 + cr.Intn(5) - 2
+			case 2:
+				return -(1 << 31) - cr.Intn(3)
+			case 3:
+				return 1<<16 + cr.Intn(5) - 2
+			}
+			return cr.Intn(dom) - dom/4
+		}
+		ok := true
+		switch mode {
+		case 0: // big sets: wide NewIntSet lists, long Insert chains on one lineage, unions of big operands
+			dom := []int{300, 1000, 5000, 70000}[cr.Intn(4)]
+			steps := 60 + cr.Intn(140)
+			cur := 0
+			for s := 0; s < steps && ok; s++ {
+				switch cr.Intn(8) {
+				case 0:
+					n := cr.Intn(400)
+					vals := make([]int, n)
+					for k := range vals {
+						vals[k] = big(dom)
+					}
+					p.apply(c15op{kind: 0, vals: vals})
+					cur = len(p.sets) - 1
+				case 1, 2, 3:
+					// keep extending the newest member of one lineage: its ancestors must all stay what they were
+					p.apply(c15op{kind: 1, i: cur, x: big(dom)})
+					cur = len(p.sets) - 1
+				case 4:
+					p.apply(c15op{kind: 2, i: cr.Intn(len(p.sets)), j: cr.Intn(len(p.sets))})
+					if cr.Intn(2) == 0 {
+						cur = len(p.sets) - 1
+					}
+				case 5:
+					p.apply(c15op{kind: 1, i: cr.Intn(len(p.sets)), x: big(dom)})
+				case 6, 7:
+					// siblings: two or three values beyond the current extremes inserted into the SAME parent (the order in
+					// which parser indices arrive in practice: ascending); the parent and each sibling must stay apart
+					par := cur
+					w := p.sets[par].want
+					lo, hi := 0, 0
+					if len(w) > 0 {
+						lo, hi = w[0], w[len(w)-1]
+					}
+					for k, n := 0, 2+cr.Intn(2); k < n; k++ {
+						x := hi + 1 + cr.Intn(3) + k
+						if cr.Intn(4) == 0 {
+							x = lo - 1 - cr.Intn(3) - k
+						}
+						p.apply(c15op{kind: 1, i: par, x: x})
+						if cr.Intn(2) == 0 { // a grandchild in between: the sibling's spare capacity, if it has any, is used
+							p.apply(c15op{kind: 1, i: len(p.sets) - 1, x: x + 7})
+						}
+					}
+					if cr.Intn(2) == 0 {
+						cur = len(p.sets) - 1
+					}
+				}
+				a.Count("operations", 1)
+				a.SetMax("scale: members of one set", int64(len(p.sets[len(p.sets)-1].want)))
+				if s%16 == 15 {
+					ok = check(fmt.Sprintf("after %d operations", s+1))
+				}
+			}
+		case 1: // counters: one map incremented thousands of times on few keys (8/16-bit wrap), old states kept
+			keys := []int{big(50), big(50), big(50)}
+			n := []int{300, 700, 70000}[cr.Intn(3)]
+			if j.Param("small", 0) == 1 && n > 700 {
+				n = 700
+			}
+			cur := 0
+			for s := 0; s < n && ok; s++ {
+				k := keys[0]
+				if cr.Intn(8) == 0 {
+					k = keys[1+cr.Intn(2)]
+				}
+				p.apply(c15op{kind: 3, i: cur, x: k})
+				// keep the boundary states and a thin sample of the others, forget the rest (memory)
+				last := len(p.maps) - 1
+				c := p.maps[last].want[keys[0]]
+				keep := c == 127 || c == 128 || c == 255 || c == 256 || c == 257 || c == 32767 || c == 32768 || c == 65535 || c == 65536 || c == 65537 || s%997 == 0 || s == n-1
+				cur = last
+				if !keep && last >= 2 {
+					// drop the predecessor from the pool but keep extending the newest value
+					p.maps[last-1] = p.maps[last]
+					p.maps = p.maps[:last]
+					cur = last - 1
+				}
+				if len(p.hist) > 64 {
+					p.hist = append([]string{fmt.Sprintf("(%d increments so far)", s+1)}, p.hist[len(p.hist)-8:]...)
+				}
+				a.Count("operations", 1)
+				a.SetMax("scale: counter value", int64(c))
+				if keep {
+					ok = check(fmt.Sprintf("after %d increments", s+1))
+				}
+			}
+		case 2: // many keys: maps with hundreds of keys, filtered by sets larger and smaller than the map
+			dom := []int{100, 600, 3000}[cr.Intn(3)]
+			nk := 20 + cr.Intn(dom)
+			if nk > 900 {
+				nk = 900
+			}
+			var kv [][2]int
+			seen := map[int]bool{}
+			for len(kv) < nk/2 {
+				k := big(dom)
+				if !seen[k] {
+					seen[k] = true
+					kv = append(kv, [2]int{k, cr.Intn(300)})
+				}
+			}
+			p.apply(c15op{kind: 5, kv: kv})
+			cur := len(p.maps) - 1
+			for s := 0; s < nk/2; s++ { // the other half arrives through Inc (the map grows key by key)
+				p.apply(c15op{kind: 3, i: cur, x: big(dom)})
+				last := len(p.maps) - 1
+				if s%37 != 0 {
+					p.maps[last-1] = p.maps[last]
+					p.maps = p.maps[:last]
+					last--
+				}
+				cur = last
+				a.Count("operations", 1)
+			}
+			p.hist = append(p.hist[:1:1], fmt.Sprintf("(%d Inc operations, %d states kept)", nk/2, len(p.maps)-2))
+			ok = check("after growing the map")
+			for s := 0; s < 24 && ok; s++ {
+				n := []int{0, 1, 3, 30, 300, 2000}[cr.Intn(6)]
+				vals := make([]int, n)
+				for k := range vals {
+					vals[k] = big(dom)
+				}
+				p.apply(c15op{kind: 0, vals: vals})
+				p.apply(c15op{kind: 4, i: cr.Intn(len(p.maps)), j: len(p.sets) - 1})
+				if cr.Intn(3) == 0 {
+					p.apply(c15op{kind: 3, i: len(p.maps) - 1, x: big(dom)})
+				}
+				a.Count("operations", 3)
+				a.SetMax("scale: keys of one map", int64(len(p.maps[cur].want)))
+				ok = check(fmt.Sprintf("after filter %d", s+1))
+			}
+		case 3: // the caller-owned buffer grows past its capacity several times while sets made from it are held
+			p.buf = make([]int, 0, 4)
+			n := 40 + cr.Intn(400)
+			for s := 0; s < n && ok; s++ {
+				x := big(500)
+				if len(p.buf) == cap(p.buf) { // grow by reallocation like a caller's append would (pool.apply would reset it)
+					nb := make([]int, len(p.buf), 2*cap(p.buf))
+					copy(nb, p.buf)
+					p.buf = nb
+				}
+				p.apply(c15op{kind: 6, x: x})
+				if cr.Intn(4) == 0 {
+					p.apply(c15op{kind: 2, i: len(p.sets) - 1, j: cr.Intn(len(p.sets))})
+				}
+				a.Count("operations", 1)
+				if s%32 == 31 {
+					ok = check(fmt.Sprintf("after %d appends", s+1))
+				}
+			}
+		}
+		if ok {
+			ok = check("end of history")
+		}
+		if ok {
+			a.NonTrivial(fmt.Sprintf("scale:%d:%d", mode, caseSeed))
+			a.Count(fmt.Sprintf("scale histories, mode %d", mode), 1)
+		}
 	}
 }
 
@@ -488,6 +693,14 @@ func init() {
 			for i := 0; i < nrand; i++ {
 				jobs = append(jobs, run.Job{Family: "random", Seed: seed*1000 + int64(i), N: per})
 			}
+			// large values and long lineages
+			nscale, perScale := 8, 24
+			if tier == "thorough" {
+				nscale, perScale = 32, 60
+			}
+			for i := 0; i < nscale; i++ {
+				jobs = append(jobs, run.Job{Family: "scale", Seed: seed*1000 + 300 + int64(i), N: perScale})
+			}
 			// the parser's own sets and maps, held while real left-recursive grammars are parsed
 			insitu := 30
 			if tier == "thorough" {
@@ -513,7 +726,7 @@ func init() {
 			cov["rule"] = "a case is one prefix of an operation history (NewIntSet/Insert/Union, NewIntMap/Inc/Filter, each applied to any earlier value) " +
 				"after which EVERY value produced so far is re-read (Len/Each, Keys/Get/Each) and compared with a plain Go model; " +
 				"non-trivial = the history applied an operation to a non-empty earlier value (shared history); distinct = distinct history text. " +
-				"families: seeded random histories (4-19 ops, domain 3-8 or 20-60, negative and extreme values), every sequence of the small scope (domain {0,1,2}, lists up to 3, depth 3 quick / 4 thorough), " +
+				"families: seeded random histories (4-19 ops, domain 3-8 or 20-60, negative and extreme values), scale histories (sets of up to thousands of members grown by long Insert/Union lineages, counters incremented up to 70000 times with the states at the 8/16-bit boundaries kept, maps of hundreds of keys filtered by larger and smaller sets, members beyond 16/31/32 bits, a caller buffer that is reallocated while sets made from it are held), every sequence of the small scope (domain {0,1,2}, lists up to 3, depth 3 quick / 4 thorough), " +
 				"and IN SITU: probes around every sub-parser of real left-recursive grammars (mutual-LR, layered-LR, seed corpus) hold every curtailing-parser set returned and every left-recursion context passed during a parse and re-read them at its end"
 			cov["exhaustive_small_scope"] = true
 			if a.Counters["values_reread"] == 0 {
